@@ -525,3 +525,46 @@ class ConcurrentExpunge(Harness):
 
         err = run(go(), timeout=60)
         return {"observed": err, "clause": "a command is applied to the messages its arguments denote when it runs"} if err else None
+
+
+class ExamineReadOnly(Harness):
+    """A session that opened the mailbox with EXAMINE never changes its messages or flags (C05 e)."""
+
+    scope = "5-message mailbox, one flag set beforehand; an EXAMINE session issues one changing command (STORE +/-/= flags, silent or not, UID or not; non-PEEK body fetches; EXPUNGE; CLOSE); flags and UIDs of every message read back by a second session"
+    exhaustive = False
+
+    def inputs(self, tier, seed):
+        for c in ["STORE 2 +FLAGS (\\Flagged)", "STORE 1:3 +FLAGS.SILENT (\\Deleted)", "UID STORE 1:* -FLAGS (\\Answered)", "STORE 3 FLAGS (\\Draft)",
+                  "UID STORE 3 FLAGS.SILENT ()", "FETCH 2 BODY[]", "FETCH 1:* RFC822", "UID FETCH 4 BODY[TEXT]", "FETCH 5 (FLAGS RFC822.TEXT)", "FETCH 2 BODY.PEEK[]",
+                  "EXPUNGE", "CLOSE"]:
+            yield {"cmd": c}
+
+    def check(self, inp):
+        async def flags(s):
+            out = {}
+            for ln in await s.cmd("UID FETCH 1:* (FLAGS)"):
+                if ln.startswith("*") and "FLAGS (" in ln and "UID " in ln:
+                    uid = int(ln.split("UID ")[1].split(")")[0].split()[0])
+                    fl = sorted(f for f in ln.split("FLAGS (")[1].split(")")[0].split() if f != "\\Recent")
+                    out[uid] = fl
+            return out
+
+        async def go():
+            async with World({"inbox": 5}) as w:
+                b = w.session("b")
+                await b.cmd("SELECT inbox")
+                await b.cmd("STORE 3 +FLAGS (\\Answered \\Deleted)")
+                await b.cmd("STORE 2:5 -FLAGS (\\Seen)")
+                await b.cmd("STORE 1 +FLAGS (\\Seen)")
+                before = await flags(b)
+                a = w.session("a")
+                await a.cmd("EXAMINE inbox")
+                reply = await a.cmd(inp["cmd"])
+                await b.cmd("NOOP")
+                after = await flags(b)
+                return before, after, reply
+
+        before, after, reply = run(go())
+        if before != after:
+            return {"observed": {"before": before, "after": after, "reply": reply[-1:] }, "clause": "flags and messages unchanged by a command of an EXAMINE session"}
+        return None
